@@ -71,6 +71,9 @@ type RBT struct {
 	vlogInvalid bool
 	dirty       bool
 	stages      []arena.MemDBCheckpoint
+	// lastCheckpoint is the latest position handed out by Checkpoint or reverted to by RevertToCheckpoint. Values
+	// before it can't be modified in place: the caller may still revert to it.
+	lastCheckpoint *arena.MemDBCheckpoint
 
 	// The lastTraversedNode stores addr in uint64 of the last traversed node.
 	// Compare to atomic.Pointer, atomic.Uint64 can avoid allocation so it's more efficient.
@@ -195,6 +198,11 @@ func (db *RBT) Cleanup(h int) {
 			db.vlog.Truncate(cp)
 		}
 	}
+	if db.lastCheckpoint != nil && cp.LessThan(db.lastCheckpoint) {
+		// the log was cut below the latest checkpoint: that checkpoint is dead, protect up to the cut only
+		c := *cp
+		db.lastCheckpoint = &c
+	}
 	db.stages = db.stages[:h-1]
 	db.vlog.OnMemChange()
 }
@@ -202,6 +210,8 @@ func (db *RBT) Cleanup(h int) {
 // Checkpoint returns a checkpoint of RBT.
 func (db *RBT) Checkpoint() *arena.MemDBCheckpoint {
 	cp := db.vlog.Checkpoint()
+	lastCp := cp
+	db.lastCheckpoint = &lastCp
 	return &cp
 }
 
@@ -209,6 +219,8 @@ func (db *RBT) Checkpoint() *arena.MemDBCheckpoint {
 func (db *RBT) RevertToCheckpoint(cp *arena.MemDBCheckpoint) {
 	db.vlog.RevertToCheckpoint(db, cp)
 	db.vlog.Truncate(cp)
+	lastCp := *cp
+	db.lastCheckpoint = &lastCp
 	db.vlog.OnMemChange()
 }
 
@@ -216,6 +228,7 @@ func (db *RBT) RevertToCheckpoint(cp *arena.MemDBCheckpoint) {
 func (db *RBT) Reset() {
 	db.root = arena.NullAddr
 	db.stages = db.stages[:0]
+	db.lastCheckpoint = nil
 	db.dirty = false
 	db.vlogInvalid = false
 	db.size = 0
@@ -388,7 +401,7 @@ func (db *RBT) setValue(x MemdbNodeAddr, value []byte) {
 		oldVal = db.vlog.GetValue(x.vptr)
 	}
 
-	if len(oldVal) > 0 && db.vlog.CanModify(activeCp, x.vptr) {
+	if len(oldVal) > 0 && db.vlog.CanModify(activeCp, x.vptr) && db.vlog.CanModify(db.lastCheckpoint, x.vptr) {
 		// For easier to implement, we only consider this case.
 		// It is the most common usage in TiDB's transaction buffers.
 		if len(oldVal) == len(value) {
